@@ -26,6 +26,17 @@ def count_fields(buf, hdr):
     return out
 
 
+def shared_tuples(n):
+    import struct
+    le = lambda v: struct.pack("<i", v)
+
+    def build(k, idx):
+        if k == 0:
+            return bytes(bytearray([ord("(") | 0x80])) + le(1) + b"N"
+        return bytes(bytearray([ord("(") | 0x80])) + le(2) + build(k - 1, idx + 1) + b"r" + le(idx + 1)
+    return b">" + le(1) + build(n, 0) + b"\x00" * 40
+
+
 def bases(quick):
     bs = []
     T = mwrap.T
@@ -79,6 +90,9 @@ def run(tier, rep):
                        ("huge-string", bytes(bytearray([85, 13, 13, 10] + [0] * 12)) + b"s\xff\xff\xff\x7f" + b"x" * 60),
                        ("huge-long", bytes(bytearray([85, 13, 13, 10] + [0] * 12)) + b"l\xff\xff\xff\x7f" + b"\x01\x00" * 30),
                        ("huge-long-py2", bytes(bytearray([3, 243, 13, 10] + [0] * 4)) + b"l\x00\x00\x00\x40" + b"\x01\x00" * 30),
+                       # 40 levels of T(k) = (T(k-1), r(T(k-1))) inside a frozenset: 600 bytes whose value has 2**40 leaves when walked
+                       # without sharing, which is what hashing a tuple does
+                       ("shared-tuples-in-set", bytes(bytearray([85, 13, 13, 10] + [0] * 12)) + shared_tuples(40)),
                        ("ref-loop", bytes(bytearray([85, 13, 13, 10] + [0] * 12)) + b"\xdb\x01\x00\x00\x00r\x00\x00\x00\x00" + b"\x00" * 50)):
         faulty.append({"id": "hostile:" + name, "base": "hostile", "kind": "hostile", "pos": -1, "val": [], "bytes": list(bytearray(data))})
     # header sweep: every magic xdis knows (and its neighbours) with well-formed and ill-formed bytes 3-4, followed by junk
@@ -201,9 +215,10 @@ def run(tier, rep):
         native = (base in base_of and base_of[base]["magic"] == mrun.OWN_MAGIC[lib.MAIN_HOST]) or base == "native-real-file" or \
                  (base == "hostile" and x["bytes"][:2] == [mrun.OWN_MAGIC[lib.MAIN_HOST] & 255, mrun.OWN_MAGIC[lib.MAIN_HOST] >> 8])
         site = "native-fast-path" if native else base
+        label = x["id"] if base == "hostile" else base       # a whole-file hostile input is its own site
         if oc not in ("tuple", "ImportError"):
             killed = oc.startswith("killed")
-            rj("C11.outcome:%s:%s" % (oc.split(":")[0] if killed else oc, site if killed else base),
+            rj("C11.outcome:%s:%s" % (oc.split(":")[0] if killed else oc, site if killed else label),
                {"id": x["id"], "outcome": oc, "cause": r.get("cause"), "wall": r.get("wall")}, x)
         elif oc == "ImportError" and r.get("cause") == "MemoryError":
             rj("C11.memory_exhaustion_attempt:%s" % site, {"id": x["id"], "cause": "MemoryError inside ImportError (survived only because of the rlimit)"}, x)
@@ -212,7 +227,7 @@ def run(tier, rep):
         if r.get("stdout"):
             rep.extra["stdout_writes"] = rep.extra.get("stdout_writes", 0) + 1
         if r.get("load_s", r.get("wall", 0)) > 20:
-            rj("C11.slow:%s" % base, {"id": x["id"], "wall": r.get("load_s", r.get("wall"))}, x)
+            rj("C11.slow:%s" % label, {"id": x["id"], "wall": r.get("load_s", r.get("wall"))}, x)
         if r.get("after_return"):
             rep.extra["worker_died_after_return"] = rep.extra.get("worker_died_after_return", 0) + 1
         if oc == "ImportError" and r.get("cause") == "RecursionError":
